@@ -218,6 +218,16 @@ func bindMain(args []string) error {
 				} else {
 					sch[rng.Intn(len(sch))] = ks[rng.Intn(len(ks))]
 				}
+				// a column whose parameters the target adopts comes back with other parameters (the target still holds rows)
+				for i, k := range sch {
+					if alt, ok := map[string]string{"dt64_3": "dt64_6", "dt64_6": "dt64_3", "enumA": "enumB", "enumB": "enumA"}[k.name]; ok && rng.Intn(2) == 0 {
+						for _, k2 := range ks {
+							if k2.name == alt {
+								sch[i] = k2
+							}
+						}
+					}
+				}
 			}
 			rows := rng.Intn(3)
 			var cols []bcolumn
@@ -301,7 +311,12 @@ func bindMain(args []string) error {
 						cur = held[i] // unchanged from an earlier block (not re-verified byte for byte)
 					}
 				}
-				after = append(after, map[string]any{"name": res[i].Name, "data": cur})
+				// an inferring target that was bound shows the type the server named (its parameters adopted)
+				adopted := true
+				if t.k.target != nil && derr == nil && i < len(cols) && cols[i].k.wire != "" {
+					adopted = string(t.col.Type()) == cols[i].k.wire
+				}
+				after = append(after, map[string]any{"name": res[i].Name, "data": cur, "adopted": adopted, "atype": string(t.col.Type())})
 				held[i] = cur
 			}
 			mentions := false
